@@ -7,6 +7,13 @@ from replay.C01 import native
 def replay(name, e, src_root):
     req = {'model': e.get('model'), 'obligation': name, 'seed': 7, 'rounds': 14}
     out = native(req, src_root, script='native_c07.py')
+    if 'native-sweep' in name:
+        # thorough tier: more seeds and longer histories
+        for seed in range(1, 9):
+            if out.get('confirmed'):
+                break
+            req = {'obligation': name, 'seed': seed, 'rounds': 24}
+            out = native(req, src_root, script='native_c07.py')
     path = write_replay(name, e, note='native replay: differential check of the real SharesManager against a brute-force oracle over generated '
                         'trees, share histories and queries', extra={'request': req, 'native': out})
     return bool(out.get('confirmed')), path
